@@ -229,6 +229,11 @@ def gen_epoch(rng, two_digit_year=False):
         if two_digit_year:
             year = rng.randint(2001, 2098)
     r = rng.random()
+    if r < 0.06:
+        # leap years, in particular the ones divisible by 400: 29 February and day 366
+        year = rng.choice([2004, 2024, 2096, 2048] if two_digit_year else [2000, 2000, 2400, 1600, 2024, 2096, 1204, 9600])
+        month, day = rng.choice([(12, 31), (12, 31), (12, 30), (2, 29), (2, 29), (3, 1)])
+        return dt.date(year, month, day)
     if r < 0.25:
         month, day = rng.choice([(12, 28), (12, 29), (12, 30), (12, 31), (1, 1), (1, 2), (1, 3), (1, 4), (1, 7)])
     elif r < 0.35:
